@@ -36,6 +36,7 @@ func runC17(c *report.Ctx) {
 	checkTokenValidation(c)
 	c.Clause("3 classification and reset")
 	checkTrailerDeclarations(c)
+	checkResponseAlwaysCancellable(c)
 	checkPayloadCopy(c)
 	c.Clause("4 token bucket")
 	checkTokenBucket(c)
